@@ -26,6 +26,9 @@ type decIn struct {
 	Chunks [][]int `json:"chunks,omitempty"`
 	Err    string  `json:"err,omitempty"` // eof | fail
 	Cancel int     `json:"cancel"`        // -1: never
+	// the whole input is pending at once: a Read gets as many bytes as it asks for (the chunks only say what a reader
+	// with a 256-byte buffer sees)
+	Greedy bool `json:"greedy,omitempty"`
 }
 
 type decOut struct {
@@ -51,6 +54,7 @@ func toBytes(l []int) []byte {
 var errScripted = errors.New("scripted read failure")
 
 type scriptReader struct {
+	greedy bool
 	chunks [][]byte
 	final  error
 	reads  int
@@ -60,6 +64,19 @@ func (s *scriptReader) Read(p []byte) (int, error) {
 	s.reads++
 	if len(s.chunks) == 0 {
 		return 0, s.final
+	}
+	if s.greedy {
+		n := 0
+		for n < len(p) && len(s.chunks) > 0 {
+			k := copy(p[n:], s.chunks[0])
+			n += k
+			if k == len(s.chunks[0]) {
+				s.chunks = s.chunks[1:]
+			} else {
+				s.chunks[0] = s.chunks[0][k:]
+			}
+		}
+		return n, nil
 	}
 	c := s.chunks[0]
 	if len(c) > len(p) {
@@ -162,7 +179,7 @@ func runRead(in decIn) decOut {
 		out.Msgs = []string{}
 		return out
 	}
-	sr := &scriptReader{final: io.EOF}
+	sr := &scriptReader{final: io.EOF, greedy: in.Greedy}
 	if in.Err == "fail" {
 		sr.final = errScripted
 	}
